@@ -251,7 +251,12 @@ func init() {
 					g = orb.Collection{orb.MultiPolygon{{ringOf(r, 1)}}, orb.LineString(ringOf(l, 1)), orb.Point{float64(pts[0][0]), float64(pts[0][1])}}
 				default:
 					x0, y0 := iv(6), iv(6)
-					b := orb.Bound{Min: orb.Point{float64(x0), float64(y0)}, Max: orb.Point{float64(x0 + c.rng.Intn(4)), float64(y0 + c.rng.Intn(4))}}
+					bw, bh := c.rng.Intn(8), c.rng.Intn(8)
+					b := orb.Bound{Min: orb.Point{float64(x0), float64(y0)}, Max: orb.Point{float64(x0 + bw), float64(y0 + bh)}}
+					if bw >= 2 && bh >= 2 && c.rng.Intn(2) == 0 { // a query point strictly inside the box: the distance is to the nearest side
+						p = [2]int{x0 + 1 + c.rng.Intn(bw-1), y0 + 1 + c.rng.Intn(bh-1)}
+						pt = orb.Point{float64(p[0]), float64(p[1])}
+					}
 					br := b.ToRing()
 					r := [][2]int{}
 					for _, q := range br {
